@@ -11,7 +11,7 @@ COQ_HEADER = 'From Gen Require Import Ident Classes.\nFrom QCE Require Import Co
 IMPL = 'harness/impl/core_impl.py'
 IMPL_KW = {'shards': 12}
 SHARD = 6
-EXTRA_FNS = ('agree_model', 'cert_plain', 'cert_unrolled')
+EXTRA_FNS = ('agree_model', 'cert_plain', 'cert_unrolled', 'cert_strict_plain', 'cert_strict_unrolled')
 TRUSTED = ['Gen/Classes.v, Gen/Ident.v regenerated from the source on every run (operation classes: channels, default durations; ChannelIdentifier.__eq__)',
            'Core/Model.v times / ext_of / listing_op / apply_modifiers: hand-written, tied to the implementation by this correspondence run on the relation graph '
            'extracted from the real library-built circuit (harness/impl/lib_impl.py records the true insertion order)',
@@ -48,8 +48,13 @@ def gen_cases(rng, tier):
         if i < 2:
             cases.append({'k': 'multi', 'desc': {'src': 'chain', 'length': 3, 'refocus': i == 0}, 'init': [0, 1], 'rounds': [[0, 2], [1, 3, 1]][i], 'env': env})
         cases.append({'k': 'calib', 'n': 1 + i % 3, 'type': ['QUTRIT', 'QUBIT'][i % 2], 'env': env})
+        # a layout sub-chain (these park qubits during the flux layers: flux against microwave lengths matter)
+        chains = [ch for ch in libgen.sub_chains('Repetition9Round6Code', 3) if len(ch) == 5]
+        inv = chains[(3 * i + 1) % len(chains)]
+        cases.append({'k': 'repcode', 'desc': {'src': 'layout', 'name': 'Repetition9Round6Code', 'involved': inv, 'refocus': True},
+                      'init': [rng.randint(0, 1) for _ in range((len(inv) + 1) // 2)], 'cycles': 2, 'env': env})
     # random part
-    n = {'repcode': 14, 'simplified': 10, 'multi': 4, 'calib': 4} if quick else {'repcode': 220, 'simplified': 140, 'multi': 40, 'calib': 40}
+    n = {'repcode': 12, 'simplified': 9, 'multi': 4, 'calib': 3} if quick else {'repcode': 220, 'simplified': 140, 'multi': 40, 'calib': 40}
     for kind, cnt in n.items():
         for _ in range(cnt):
             c = libgen.gen_lib_case(rng, kind, max_d=max_d, max_cycles=max_c)
@@ -152,7 +157,7 @@ LEVEL_TEXT = ('Coq proof for the "all duration settings" half of the quantifier,
               'with starts and ends as max-plus forms over R, M, F, S and the decoupling wait W; it is proved equal to the model\'s scheduler (Core/Model.v times / ext_of / '
               'listing_op, nested blocks and multi-links included) for every setting with non-negative globals and R - M even (C10_symbolic_listing_sound); a decidable order '
               'on forms (uses only R, M, F, S, W >= 0 and 2W + M >= R) is proved sound (C10_mp_le_sound); hence one vm_compute evaluation of cert_no_overlap on a graph proves '
-              'that no channel-sharing pair overlaps and nothing - zero-length operations included - sits inside a barrier under EVERY such setting, as constructed '
+              'that no two channel-sharing operations of non-zero length overlap and nothing - zero-length operations included - sits inside a barrier under EVERY such setting, as constructed '
               '(C10_certified) and after unrolling (C10_certified_unrolled, using that unrolling is setting-independent). The certificate is evaluated on the relation graph '
               'extracted from every generated library circuit and is part of the tie, so each passing case is a theorem instance over all settings '
               '(C10_holds_all_settings_partial), and the tie implies the judge (C10_tie_implies_spec).')
@@ -164,7 +169,8 @@ LEVEL_NOTE = ('Partial: the "all constructor inputs" half (chain descriptions, l
               '(R - M) mod 2 = 0 in 1/8 ticks, i.e. durations are multiples of 0.25; without parity the model\'s floor division makes 2W + M >= R false '
               '(C10_wait_fact_without_parity_refuted) while the Python float wait stays exact, so this is a limit of the integer model, not of the code. Zero-length '
               'operations (virtual phases, detectors, CoordinateShiftOperation = the barrier-like operation without length) are never "positive"; clause 2 is checked with '
-              'the open-interval test (barrier_clear), the certificate demands the same of every channel-sharing pair. Finding F18 (simplified constructor without '
+              'the open-interval test (barrier_clear); the strict certificate (no zero-length operation strictly inside ANY channel-sharing operation, C10_certified_strict) also holds '
+              'on every generated library circuit but is only reported (extra_functions_false_on), not part of the tie. Finding F18 (simplified constructor without '
               'refocusing: closing barrier over the QEC cycle) was found by this check and is fixed (4104f91); its witness runs first on every check. No axioms.')
 TECHNIQUE = ('Coq proof of a symbolic (max-plus) scheduler against the executable model + reflective certificate (vm_compute) per extracted library circuit, with a sampled '
              'model/implementation correspondence judged in Coq')
